@@ -227,6 +227,7 @@ pub fn c01(cfg: &Cfg, idx: u64, st: &mut Stats) {
             rejects: 0,
             reject_run: 0,
             threads: 1,
+            prologue: 0,
         };
         st.report("C01", &Case::MemBuild(case));
         return;
@@ -269,6 +270,7 @@ pub fn c01(cfg: &Cfg, idx: u64, st: &mut Stats) {
             rejects: 0,
             reject_run: 0,
             threads: 1,
+            prologue: 0,
         };
         st.report("C01", &Case::MemBuild(case));
         return;
@@ -576,6 +578,25 @@ pub fn c06(cfg: &Cfg, idx: u64, st: &mut Stats) {
             }
         }
     }
+    if rng.chance(1, 6) {
+        // exception safety: the caller's iterator / stream panics inside one
+        // of the bulk calls (after some items were accepted); the caller
+        // catches the panic and goes on using the same builder
+        let bulk: Vec<usize> = ops
+            .iter()
+            .enumerate()
+            .filter(|(_, o)| matches!(o, Op::ExtIter(_) | Op::ExtStream(_, Via::Vec)))
+            .map(|(i, _)| i)
+            .collect();
+        if !bulk.is_empty() {
+            let oi = bulk[rng.usize_below(bulk.len())];
+            if let Op::ExtIter(items) | Op::ExtStream(items, _) = &mut ops[oi] {
+                let at = rng.usize_below(items.len() + 1);
+                items.insert(at, (crate::front::PANIC_KEY.to_vec(), 0));
+                st.count("probe.c06_key_source_panics_inside_a_bulk_call", 1);
+            }
+        }
+    }
     if rng.chance(1, 16) {
         // long keys: a common prefix of more than 1 KiB in front of every key
         // (error payloads must carry the offending keys in full)
@@ -653,6 +674,7 @@ pub fn c11(cfg: &Cfg, idx: u64, st: &mut Stats) {
             rejects: 0,
             reject_run: 0,
             threads: 1,
+            prologue: 0,
         };
         st.report("C11", &Case::MemBuild(case));
         return;
@@ -1238,6 +1260,7 @@ pub fn c08(cfg: &Cfg, idx: u64, st: &mut Stats) {
             rejects: 0,
             reject_run: 0,
             threads: 1,
+            prologue: 0,
         };
         st.report("C08", &Case::MemBuild(case));
         return;
@@ -1649,6 +1672,7 @@ pub fn c13_cases(cfg: &Cfg) -> Vec<MemBuildCase> {
                     rejects: 0,
                     reject_run: 0,
                     threads: 1,
+                    prologue: 0,
                 });
             }
         }
@@ -1667,6 +1691,7 @@ pub fn c13_cases(cfg: &Cfg) -> Vec<MemBuildCase> {
             rejects: 0,
             reject_run: 0,
             threads: 1,
+            prologue: 0,
         });
     }
     // an unbounded number of DISTINCT wide nodes (leaf fans of 33..64 last
@@ -1685,6 +1710,7 @@ pub fn c13_cases(cfg: &Cfg) -> Vec<MemBuildCase> {
             rejects: 0,
             reject_run: 0,
             threads: 1,
+            prologue: 0,
         });
     }
     for (i, g) in [Some((64usize, 2usize)), None, Some((1, 1))].iter().enumerate() {
@@ -1700,6 +1726,7 @@ pub fn c13_cases(cfg: &Cfg) -> Vec<MemBuildCase> {
             rejects: 0,
             reject_run: 0,
             threads: 1,
+            prologue: 0,
         });
     }
     // the opposite extreme: complete F-ary trees (keylen == counter width),
@@ -1717,6 +1744,7 @@ pub fn c13_cases(cfg: &Cfg) -> Vec<MemBuildCase> {
             rejects: 0,
             reject_run: 0,
             threads: 1,
+            prologue: 0,
         });
     }
     // one bulk call over a large slice (exact size hint) instead of a loop
@@ -1733,6 +1761,7 @@ pub fn c13_cases(cfg: &Cfg) -> Vec<MemBuildCase> {
             rejects: 0,
             reject_run: 0,
             threads: 1,
+            prologue: 0,
         });
     }
     // one extend_stream call fed by the stream of a large source FST
@@ -1749,6 +1778,7 @@ pub fn c13_cases(cfg: &Cfg) -> Vec<MemBuildCase> {
             rejects: 0,
             reject_run: 0,
             threads: 1,
+            prologue: 0,
         });
     }
     // refused inserts in between the accepted ones (a smaller key; for maps
@@ -1766,6 +1796,7 @@ pub fn c13_cases(cfg: &Cfg) -> Vec<MemBuildCase> {
             rejects: if i == 0 { 0 } else { 2 + i as u32 },
             reject_run: [150_000, 0, 100_000][i],
             threads: 1,
+            prologue: 0,
         });
     }
     // sectioned streams: a vocabulary of tails that fits the cache is found
@@ -1792,6 +1823,25 @@ pub fn c13_cases(cfg: &Cfg) -> Vec<MemBuildCase> {
             rejects: 0,
             reject_run: 0,
             threads: 1,
+            prologue: 0,
+        });
+    }
+    // a build that begins with the empty key, and / or with a bulk call that
+    // returns an error half-way (the caller goes on with single inserts)
+    for (i, (pro, g)) in [(1u8, Some((64usize, 2usize))), (2, Some((64, 2))), (3, None), (1, Some((3, 3))), (2, Some((5, 7)))].iter().enumerate() {
+        out.push(MemBuildCase {
+            fam: KeyFamily { n: 400_000, fanout: 26, keylen: 12, seed: seed ^ 0x9120 ^ i as u64, pairs: i == 3, leaf_fan: 0, decreasing: false, repeat: 1, sec_vocab: 0, sec_parents: 0 },
+            map: i % 2 == 0,
+            registry: *g,
+            bufcap: None,
+            every: 1000,
+            shape: shapes[i % shapes.len()],
+            bulk: false,
+            bulk_stream: false,
+            rejects: 0,
+            reject_run: 0,
+            threads: 1,
+            prologue: *pro,
         });
     }
     // the builder handed back and forth between two long-lived threads
@@ -1808,6 +1858,7 @@ pub fn c13_cases(cfg: &Cfg) -> Vec<MemBuildCase> {
             rejects: 0,
             reject_run: 0,
             threads: 2,
+            prologue: 0,
         });
     }
     // long keys with distinct tails (65 .. 1000 bytes: deeper than any
@@ -1825,6 +1876,7 @@ pub fn c13_cases(cfg: &Cfg) -> Vec<MemBuildCase> {
             rejects: 0,
             reject_run: 0,
             threads: 1,
+            prologue: 0,
         });
     }
     // one builder that emits more than 64 MiB (2^26 bytes), and one more than
@@ -1842,6 +1894,7 @@ pub fn c13_cases(cfg: &Cfg) -> Vec<MemBuildCase> {
             rejects: 0,
             reject_run: 0,
             threads: 1,
+            prologue: 0,
         });
     }
     // sets fed long runs of one and the same key (a legal no-op each time)
@@ -1858,6 +1911,7 @@ pub fn c13_cases(cfg: &Cfg) -> Vec<MemBuildCase> {
             rejects: 0,
             reject_run: 0,
             threads: 1,
+            prologue: 0,
         });
     }
     if cfg.tier == Tier::Thorough {
@@ -1874,6 +1928,7 @@ pub fn c13_cases(cfg: &Cfg) -> Vec<MemBuildCase> {
                 rejects: 0,
                 reject_run: 0,
                 threads: 1,
+                prologue: 0,
             });
         }
         for (f, l) in [(2u32, 40u32), (10, 16), (64, 24), (256, 64), (256, 8)] {
@@ -1890,6 +1945,7 @@ pub fn c13_cases(cfg: &Cfg) -> Vec<MemBuildCase> {
                     rejects: 0,
                     reject_run: 0,
                     threads: 1,
+                    prologue: 0,
                 });
             }
         }
@@ -1906,6 +1962,7 @@ pub fn c13_cases(cfg: &Cfg) -> Vec<MemBuildCase> {
                 rejects: 0,
                 reject_run: 0,
                 threads: 1,
+                prologue: 0,
             });
         }
     }
